@@ -9,7 +9,9 @@ CHECK = {
     "assumptions": [
         "name components are drawn from {a,b} and pattern components from {a,b,*,**}; length <= 4 reaches every branch of the matcher (`**` first, in the middle, last, adjacent), longer names/patterns are not enumerated; the empty component is covered by 4 edge names (\"\", a/, /a, a//b) and 7 edge patterns (\"\", a//b, /a, a/, */, /**, //), not by the full product",
         "the empty string is a pattern like any other (one empty component: it equals the name \"\" only); no permutation has an empty name, so a supplied \"\" is an unmatched pattern",
-        "a flag value is pattern text verbatim: commas, quotes, blanks, backslashes, '=', a leading '-' have no meaning to the command line layer",
+        "a flag value is pattern text verbatim: commas, quotes, blanks, backslashes, '=', a leading '-', '#' have no meaning to the command line layer, and nothing is trimmed from it",
+        "blanks and tabs are component text: the blank alphabet {\"a\", \"a \", \" a\", \"a<TAB>\", \" \"} (names and patterns of length <= 2, + `*`, `**`) goes through every phase of c08-match; longer names with blanks are not enumerated",
+        "a pattern file means what docs/configuring_and_running_tests.md says: lines between line feeds, whitespace (blank, tab, CR, VT, FF) dropped at both ends, empty lines and lines whose first remaining character is '#' ignored, every other line one pattern verbatim ('#' elsewhere is pattern text); Unicode white space other than those five is not exercised",
         "the reference glob (c08Glob: literal equal, `*` exactly one component, `**` zero or more) is the meaning of the property statement and of docs/configuring_and_running_tests.md",
         "the ambiguity rule is exercised through the real run() on a generated three-permutation suite with unresolvable commands; run() is trusted to perform its pattern validations before it starts a process (it does: an accepted configuration ends at 'error starting client')",
         "c08-dispatch: scripted in-process peers substituted through the verif hook stand for the client/server processes (as in C05); default schedule only; which permutations exist and how the grpc-go peers' permutations are named (marker component before the test name) is taken from the library's expansion (C07) plus the C05 applicability predicate, the selection is recomputed with the reference glob over those reported names",
@@ -18,7 +20,7 @@ CHECK = {
     "manifest": {
         "engine": "ENUM",
         "technique": "bounded-exhaustive enumeration against a reference model",
-        "text": "All 340 patterns over {a,b,*,**} (length<=4) and all 30 names over {a,b} (length<=4): pattern sets of size 1, 2 (both insertion orders) and 3 are judged name by name against a recursive reference glob; the run/skip filter, the known-failing/known-flaky flags of an outcome, unmatched-pattern detection over every library of <=3 names, the known-failing/known-flaky ambiguity rule through the real run() (without and with --run/--skip filters that leave the doubly matched names inside, partly inside or wholly outside the selection), the set of permutations the real run() hands to a client under ~100 run/skip pattern sets per base (exact names, exact-depth `*` patterns, patterns with and without the gRPC-peer marker component, `**` patterns; client, server and both mode; scripted peers), the collection of patterns from every split of <=3 patterns over repeated flags and @files, and 34 flag values with commas, quotes, blanks, backslashes, '=', a leading '-', the empty string and empty components through the real flag set of bind() for all four flags (as `--flag v` and `--flag=v`, alone, in pairs and next to plain patterns and @files) are each compared with the set comprehension the property states.",
+        "text": "All 340 patterns over {a,b,*,**} (length<=4) and all 30 names over {a,b} (length<=4): pattern sets of size 1, 2 (both insertion orders) and 3 are judged name by name against a recursive reference glob; the run/skip filter, the known-failing/known-flaky flags of an outcome, unmatched-pattern detection over every library of <=3 names, the known-failing/known-flaky ambiguity rule through the real run() (without and with --run/--skip filters that leave the doubly matched names inside, partly inside or wholly outside the selection), the set of permutations the real run() hands to a client under ~100 run/skip pattern sets per base (exact names, exact-depth `*` patterns, patterns with and without the gRPC-peer marker component, `**` patterns; client, server and both mode; scripted peers), the collection of patterns from every split of <=3 patterns over repeated flags and @files, and 45 flag values with commas, quotes, blanks, backslashes, '=', a leading '-', the empty string and empty components through the real flag set of bind() for all four flags (as `--flag v` and `--flag=v`, alone, in pairs and next to plain patterns and @files) are each compared with the set comprehension the property states. Round 5: the same matcher / filter / outcome / unmatched phases over a blank alphabet (components with a leading or trailing blank, a trailing tab, a lone blank; 30 names x 56 patterns), five such patterns in the ambiguity unit, and a raw-file family in c08-collect (every sequence of <=2, thorough <=3, lines over 29 raw lines with blanks, tabs and '#' at every kind of place, LF / no final LF / CRLF, alone and next to the same text as a direct value) judged by a reader model written from the documented file format.",
         "note": "Alphabet and length bounds as stated per unit in the evidence rule; reference glob trusted; the converse of 'an unmatched pattern is an error' (no error when every pattern matches) is checked under its own violation key.",
         "design_ref": "DESIGN.md §2.2, §4 C08",
     },
